@@ -62,6 +62,10 @@ MATRIX = [
     dict(entry="cli_normalize", mode="content", initial="absent", base_hash="none", parent_missing=1),
     dict(entry="cli_seal", mode="content", initial="canonical", base_hash="none"),
     dict(entry="cli_seal", mode="content", initial="absent", base_hash="none"),
+    dict(entry="tool", mode="content", initial="canonical", base_hash="none", args={"lenient": True, "schema": "TEST_HOLOGRAPHIC"},
+         new_style="holo_repairable"),
+    dict(entry="tool", mode="content", initial="frontmatter", base_hash="current", args={"lenient": True, "schema": "TEST_HOLOGRAPHIC",
+                                                                                         "grammar_hint": True}, new_style="holo_repairable"),
     dict(entry="cli_write", mode="content", initial="canonical", base_hash="current", stdin=True),
     dict(entry="cli_write", mode="content", initial="absent", base_hash="none", stdin=True, new_style="unicode"),
     dict(entry="tool", mode="changes", initial="crlf", base_hash="current"),
@@ -104,12 +108,16 @@ def gen_scenario(t: Tape, idx: int, tier: str) -> dict:
             a = {}
             if t.flag(250, "sc.len"):
                 a["lenient"] = True
-                sc["new_style"] = t.pick(["lenient", "canonical"], "sc.ns")
+                sc["new_style"] = t.pick(["lenient", "canonical", "holo_repairable"], "sc.ns")
+                if sc["new_style"] == "holo_repairable":
+                    a["schema"] = "TEST_HOLOGRAPHIC"
                 if t.flag(300, "sc.salv"):
                     a["parse_error_policy"] = "salvage"
                     sc["new_style"] = t.pick(["lenient", "bad"], "sc.ns2")
-            if t.flag(200, "sc.schema"):
-                a["schema"] = t.pick(["META", "SKILL", "NOPE"], "sc.sn")
+            if t.flag(200, "sc.schema") and "schema" not in a:
+                a["schema"] = t.pick(["META", "SKILL", "NOPE", "TEST_HOLOGRAPHIC"], "sc.sn")
+                if t.flag(400, "sc.gh"):
+                    a["grammar_hint"] = True
             if t.flag(150, "sc.mut"):
                 a["mutations"] = {"STATUS": "ACTIVE", "EXTRA": ["a", "b"]}
             if t.flag(60, "sc.dry"):
@@ -796,11 +804,22 @@ def make_case(seed: int, idx: int, tier: str, two_writers: bool = False) -> dict
 def units(tier: str, verif_seed: int) -> list:
     out = []
     if tier == "quick":
-        n_sweep, n_pair, n_rand_units, per = 72, 20, 96, 160
+        n_sweep, n_pair, n_rand_units, per = 64, 14, 80, 160
     else:
         n_sweep, n_pair, n_rand_units, per = 1500, 400, 3200, 500
     parts = 4
-    for i in range(n_pair):
+    # quick: a spread over the named matrix (new file, overwrite+base_hash, missing parent, read-only, frontmatter, changes,
+    # normalize, atomic_write_octave, each CLI command) rather than its first entries
+    want = [("tool", "content", "absent"), ("tool", "content", "canonical"), ("tool", "content", "frontmatter"), ("tool", "changes", "canonical"),
+            ("tool", "normalize", "lenient"), ("tool", "changes", "crlf"), ("atomic", "content", "absent"), ("atomic", "content", "canonical"),
+            ("cli_write", "content", "absent"), ("cli_write", "content", "canonical"), ("cli_write", "changes", "canonical"),
+            ("cli_normalize", "content", "canonical"), ("cli_seal", "content", "canonical"), ("cli_hydrate", "content", "absent")]
+    spread = []
+    for key in want:
+        cands = [i for i, m_ in enumerate(MATRIX) if (m_["entry"], m_["mode"], m_["initial"]) == key]
+        spread += cands[:1]
+    pair_idx = sorted(set(spread)) if tier == "quick" else list(range(n_pair))
+    for i in pair_idx:
         for part in range(parts):
             out.append({"kind": "sweep", "idx": i, "seed": derive_seed(verif_seed, PROP, "sweep", i), "tier": tier,
                         "pairs": True, "part": part, "parts": parts})
